@@ -130,8 +130,9 @@ func runC05(c *Ctx) {
 	ruleWriterMethodSets(c, p, "C05.T")
 	c.Rule("C05.R", "a retried upload hands replayed chunks on without waiting for more backend output", 1)
 	ruleReplayDoesNotWaitForSource(c, p, "C05.R")
-	c.Rule("C05.L", "the metrics mutex is not on the streaming path", 2)
+	c.Rule("C05.L", "the metrics mutex is not on the streaming path", 3)
 	ruleNoLockAcrossRPC(c, p, "C05.L")
+	ruleRecordingDoesNotWait(c, p, "C05.L")
 	ruleSerialiserDoesNotBlockOnMetrics(c, p, "C05.L")
 	c.Rule("C05.S", "the response is published as soon as the status is set", 1)
 
